@@ -616,29 +616,23 @@ theorem getDefinedSymbolPositions_map (f : Ast.File) :
   refine rmap_bind ρ _ _ _ _ _ (fun t => ?_)
   exact defineTerminalVariants_map ρ t.variants seen
 
-theorem nts_names_map (f : Ast.File) :
-    ((fileMap ρ f).items.filterMap fun
-      | .struct s => some s.name.name
-      | .enum e => some e.name.name
-      | _ => none) =
-    (f.items.filterMap fun
-      | .struct s => some s.name.name
-      | .enum e => some e.name.name
-      | _ => none) := by
+theorem filterMap_fileMap {β : Type} (F : Ast.Item → Option β) (f : Ast.File) (hF : ∀ x, F (itemMap ρ x) = F x) :
+    List.filterMap F (fileMap ρ f).items = List.filterMap F f.items := by
   unfold fileMap
   simp only [List.filterMap_map]
-  induction f.items with
-  | nil => rfl
-  | cons x xs ih => cases x <;> simp [List.filterMap_cons, itemMap, structMap, enumMap, identMap, ih]
+  congr 1
+  funext x
+  exact hF x
 
 theorem getDefinedSymbols_map (f : Ast.File) :
     getDefinedSymbols (fileMap ρ f) = rmap ρ id (getDefinedSymbols f) := by
   unfold getDefinedSymbols
-  rw [getDefinedSymbolPositions_map, nts_names_map]
+  rw [getDefinedSymbolPositions_map]
   refine rmap_bind ρ _ _ _ _ _ (fun seen => ?_)
-  rw [getUnvalidatedTerminalEnum_map]
-  refine rmap_bind ρ _ _ _ _ _ (fun t => ?_)
-  simp [rmap, termEnumMap, List.map_map, Function.comp_def, termVariantMap, termIdentMap, pure]
+  rw [getUnvalidatedTerminalEnum_map, filterMap_fileMap]
+  · refine rmap_bind ρ _ _ _ _ _ (fun t => ?_)
+    simp [rmap, termEnumMap, List.map_map, Function.comp_def, termVariantMap, termIdentMap, pure]
+  · intro x; cases x <;> rfl
 
 theorem assertSymbolIsDefined_map (d : Defined) (s : Ast.SymId) :
     assertSymbolIsDefined d (symIdMap ρ s) = rmap ρ id (assertSymbolIsDefined d s) := by
@@ -862,6 +856,154 @@ theorem validateAst_map (f : Ast.File) :
   refine rmap_bind ρ _ _ _ _ _ (fun start => ?_)
   rw [assertNoTopLevelNameClashes_map]
   refine rmap_bind ρ _ _ _ _ _ (fun _ => ?_)
+  rfl
+
+/-! ### after validation nothing looks at a position -/
+
+open Emit
+
+def ruleMap (r : VFile.Rule) : VFile.Rule := ⟨r.ctor, fieldsetMap ρ r.fieldset⟩
+
+theorem rules_map (f : VFile.File) : (vFileMap ρ f).rules = f.rules.map (ruleMap ρ) := by
+  unfold VFile.File.rules vFileMap
+  simp only [List.flatMap_map, List.map_flatMap]
+  congr 1
+  funext n
+  cases n with
+  | struct s => simp [vNontermMap, structMap, identMap, ruleMap]
+  | enum e => simp [vNontermMap, enumMap, identMap, ruleMap, variantMap, List.map_map, Function.comp_def]
+
+theorem codeSym_map (ts ns : List Str) (s : Ast.SymId) : Encode.codeSym ts ns (symIdMap ρ s) = Encode.codeSym ts ns s := by
+  cases s <;> rfl
+
+theorem codeRule_map (ts ns : List Str) (r : VFile.Rule) : Encode.codeRule ts ns (ruleMap ρ r) = Encode.codeRule ts ns r := by
+  unfold Encode.codeRule ruleMap
+  simp only [syms_map, List.mapM_map, Function.comp_def, codeSym_map]
+
+theorem nonterminal_names_map (f : VFile.File) :
+    (vFileMap ρ f).nonterminals.map (·.name) = f.nonterminals.map (·.name) := by
+  simp [vFileMap, List.map_map, Function.comp_def, vname_map]
+
+/-- the coded grammar does not depend on the positions -/
+theorem encode_map (f : VFile.File) : Encode.encode (vFileMap ρ f) = Encode.encode f := by
+  unfold Encode.encode
+  rw [nonterminal_names_map, rules_map]
+  simp only [List.mapM_map, Function.comp_def, codeRule_map]
+  rfl
+
+theorem fieldType_map (te : VFile.TermEnum) (s : Ast.SymId) :
+    fieldType (vTermEnumMap ρ te) (symIdMap ρ s) = fieldType te s := by
+  cases s <;> rfl
+
+theorem namedFieldTypes_map (te : VFile.TermEnum) (fs : List Ast.NamedField) :
+    namedFieldTypes (vTermEnumMap ρ te) (fs.map (namedFieldMap ρ)) = namedFieldTypes te fs := by
+  induction fs with
+  | nil => rfl
+  | cons f fs ih =>
+    simp only [List.map_cons, namedFieldTypes, namedFieldMap]
+    cases hn : f.name with
+    | us p => simp only [fieldNameMap]; exact ih
+    | id i => simp only [fieldNameMap, identMap, fieldType_map, ih]
+
+theorem tupleFieldTypes_map (te : VFile.TermEnum) (fs : List Ast.TupleField) :
+    tupleFieldTypes (vTermEnumMap ρ te) (fs.map (tupleFieldMap ρ)) = tupleFieldTypes te fs := by
+  induction fs with
+  | nil => rfl
+  | cons f fs ih =>
+    cases f with
+    | skipped s => simp only [List.map_cons, tupleFieldMap, tupleFieldTypes]; exact ih
+    | used s => simp only [List.map_cons, tupleFieldMap, tupleFieldTypes, fieldType_map, ih]
+
+theorem namedIsUsed_map (f : Ast.NamedField) : (namedFieldMap ρ f).isUsed = f.isUsed := by
+  unfold Ast.NamedField.isUsed namedFieldMap
+  cases f.name <;> rfl
+
+theorem tupleIsUsed_map (f : Ast.TupleField) : (tupleFieldMap ρ f).isUsed = f.isUsed := by cases f <;> rfl
+
+theorem bodyOf_map (te : VFile.TermEnum) (fs : Ast.Fieldset) :
+    bodyOf (vTermEnumMap ρ te) (fieldsetMap ρ fs) = bodyOf te fs := by
+  cases fs with
+  | empty => rfl
+  | named l =>
+    simp only [fieldsetMap, bodyOf, List.any_map, Function.comp_def, namedIsUsed_map, namedFieldTypes_map]
+  | tuple l =>
+    simp only [fieldsetMap, bodyOf, List.any_map, Function.comp_def, tupleIsUsed_map, tupleFieldTypes_map]
+
+theorem attrSrcs_map (as : List Ast.Attr) : attrSrcs (as.map (attrMap ρ)) = attrSrcs as := by
+  simp [attrSrcs, List.map_map, Function.comp_def, attrMap]
+
+theorem typeDefOf_map (te : VFile.TermEnum) (n : VFile.Nonterminal) :
+    typeDefOf (vTermEnumMap ρ te) (vNontermMap ρ n) = typeDefOf te n := by
+  cases n with
+  | struct s => simp only [vNontermMap, structMap, typeDefOf, bodyOf_map, attrSrcs_map, identMap]
+  | enum e =>
+    simp only [vNontermMap, enumMap, typeDefOf, attrSrcs_map, identMap, List.mapM_map, Function.comp_def, variantMap,
+      bodyOf_map]
+
+theorem reduceFnOf_map (ms : List (Str × Str × Str)) (idx : Nat) (r : VFile.Rule) :
+    reduceFnOf ms idx (ruleMap ρ r) = reduceFnOf ms idx r := by
+  obtain ⟨ctor, fs⟩ := r
+  cases fs with
+  | empty => rfl
+  | named l =>
+    simp only [ruleMap, fieldsetMap, reduceFnOf, List.zipIdx_map, List.map_map, List.filterMap_map, Function.comp_def,
+      List.any_map, namedIsUsed_map]
+    have hx : ∀ x : Ast.NamedField × Nat, (Prod.map (namedFieldMap ρ) id x).snd = x.snd := fun x => rfl
+    simp only [hx]
+    congr 1
+    · congr 2
+      funext x
+      obtain ⟨⟨nm, sy⟩, i⟩ := x
+      cases nm <;> cases sy <;> rfl
+    · funext children
+      congr 3
+      · congr 1
+        congr 1
+        funext x
+        obtain ⟨⟨nm, sy⟩, i⟩ := x
+        cases nm <;> rfl
+  | tuple l =>
+    simp only [ruleMap, fieldsetMap, reduceFnOf, List.zipIdx_map, List.map_map, List.filterMap_map, Function.comp_def,
+      List.any_map, tupleIsUsed_map]
+    have hx : ∀ x : Ast.TupleField × Nat, (Prod.map (tupleFieldMap ρ) id x).snd = x.snd := fun x => rfl
+    simp only [hx]
+    congr 1
+    · congr 2
+      funext x
+      obtain ⟨f, i⟩ := x
+      cases f with
+      | skipped s => rfl
+      | used s => cases s <;> rfl
+    · funext children
+      congr 3
+      · congr 1
+        congr 1
+        funext x
+        obtain ⟨f, i⟩ := x
+        cases f <;> rfl
+
+theorem definedIdentifiers_map (f : VFile.File) : (vFileMap ρ f).definedIdentifiers = f.definedIdentifiers := by
+  unfold VFile.File.definedIdentifiers
+  rw [nonterminal_names_map]
+  rfl
+
+/-- the emitted module does not depend on the positions -/
+theorem moduleOf_map (f : VFile.File) (enc : Encode.Enc) (t : Table.Table) (sha : Str) :
+    moduleOf (vFileMap ρ f) enc t sha = moduleOf f enc t sha := by
+  unfold moduleOf
+  rw [definedIdentifiers_map, rules_map, nonterminal_names_map]
+  have h1 : (vFileMap ρ f).nonterminals.mapM (typeDefOf (vFileMap ρ f).tenum) = f.nonterminals.mapM (typeDefOf f.tenum) := by
+    simp only [vFileMap, List.mapM_map, Function.comp_def, typeDefOf_map]
+  have h2 : ((f.rules.map (ruleMap ρ)).zipIdx.map fun (r, i) => reduceFnOf (methodNames (vFileMap ρ f).tenum) i r) =
+      (f.rules.zipIdx.map fun (r, i) => reduceFnOf (methodNames f.tenum) i r) := by
+    simp only [List.zipIdx_map, List.map_map, Function.comp_def]
+    apply List.map_congr_left
+    intro ⟨r, i⟩ _
+    exact reduceFnOf_map ρ _ i r
+  have hms : methodNames (vFileMap ρ f).tenum = methodNames f.tenum := rfl
+  rw [hms] at h2
+  have ha : attrSrcs (vFileMap ρ f).tenum.attrs = attrSrcs f.tenum.attrs := attrSrcs_map ρ _
+  simp only [h1, hms, h2, ha, List.length_map]
   rfl
 
 end Relabel
